@@ -2,7 +2,8 @@
 (* Trace validation for Archive: consumes the ndjson events recorded by the Go driver c15_tv *)
 (* (harness/c15_archive.go) from real executions of checkPathsReadable / archiveSourceFiles / *)
 (* newArchiveReader.Read / archiveFileWriter.Write under the real writeAll.  Events:          *)
-(*   reset | entry{dir,hdr,size,parent} | newreader{announced} | resize{ent,len}              *)
+(*   reset | scan{res,dirfds} | entry{dir,hdr,size,parent} | newreader{announced}             *)
+(*   resize{ent,len}                                                                         *)
 (*   rd{n,got,res,rfds,wfds} | eof{total,badbytes} | abort{total,badbytes} | rclose{rfds,wfds}*)
 (*   wa{len} | wr{len,c,res,rfds,wfds} | wclose{rfds,wfds}                                    *)
 (*   treediff{missing,extra,kind,size,sha}                                                   *)
@@ -27,7 +28,8 @@ IsEvent(e) == More /\ Ev.e = e /\ l' = l + 1
 Res(st) == IF st = "run" THEN "ok" ELSE st
 
 (* registers: 1 high-water mark of l, 2/3 largest excess of consumer/producer descriptors over *)
-(* the spec's open set, 4/5 the line where that excess was first seen                          *)
+(* the spec's open set, 4/5 the line where that excess was first seen, 6/7 most directory      *)
+(* handles below the source still open after checkPathsReadable returned and the line          *)
 ObsFds ==
     LET wx == Ev.wfds - Cardinality(wOpen')
         rx == Ev.rfds - Cardinality(rOpen') IN
@@ -38,6 +40,13 @@ ObsFds ==
 TInit == Init /\ l = 1
 
 TReset == IsEvent("reset") /\ Reset
+
+(* checkPathsReadable returned: a readable tree is scanned without error, and the scan keeps   *)
+(* no directory open (excess recorded like the other descriptors)                              *)
+TScan == /\ IsEvent("scan") /\ Ev.res = "ok" /\ N = 0 /\ announced = -1
+         /\ Ev.dirfds >= 0
+         /\ IF Ev.dirfds > TLCGet(6) THEN (IF TLCGet(6) = 0 THEN TLCSet(7, l) ELSE TRUE) /\ TLCSet(6, Ev.dirfds) ELSE TRUE
+         /\ UNCHANGED vars
 
 TEntry == IsEvent("entry") /\ ScanEntry(Ev.dir, Ev.hdr, Ev.size, Ev.parent)
 
@@ -84,19 +93,20 @@ TTreeDiff == /\ IsEvent("treediff") /\ Done /\ rClosed /\ wClosed
              /\ Ev.missing = 0 /\ Ev.extra = 0 /\ Ev.kind = 0 /\ Ev.size = 0 /\ Ev.sha = 0
              /\ UNCHANGED vars
 
-TNext == \/ TReset \/ TEntry \/ TNewReader \/ TResize
+TNext == \/ TReset \/ TScan \/ TEntry \/ TNewReader \/ TResize
          \/ TRdBegin \/ TRdSilent \/ TRdRet \/ TEof \/ TAbort \/ TRdClose
          \/ TWa \/ TWr \/ TWrClose \/ TTreeDiff
 
 TSpec == TInit /\ [][TNext]_tvars
 
 HW == IF l > TLCGet(1) THEN TLCSet(1, l) ELSE TRUE
-ASSUME TLCSet(1, 0) /\ TLCSet(2, 0) /\ TLCSet(3, 0) /\ TLCSet(4, 0) /\ TLCSet(5, 0)
+ASSUME TLCSet(1, 0) /\ TLCSet(2, 0) /\ TLCSet(3, 0) /\ TLCSet(4, 0) /\ TLCSet(5, 0) /\ TLCSet(6, 0) /\ TLCSet(7, 0)
 
 Accepted ==
     /\ PrintT("FDX " \o ToString(TLCGet(2)) \o " " \o ToString(TLCGet(3)) \o " "
-                    \o ToString(TLCGet(4)) \o " " \o ToString(TLCGet(5)))
+                    \o ToString(TLCGet(4)) \o " " \o ToString(TLCGet(5)) \o " "
+                    \o ToString(TLCGet(6)) \o " " \o ToString(TLCGet(7)))
     /\ IF TLCGet(1) = Len(TraceLog) + 1 THEN TRUE
        ELSE PrintT("HW " \o ToString(TLCGet(1))) /\ FALSE
-    /\ TLCGet(2) = 0 /\ TLCGet(3) = 0
+    /\ TLCGet(2) = 0 /\ TLCGet(3) = 0 /\ TLCGet(6) = 0
 =============================================================================
